@@ -97,15 +97,16 @@ def signature(primary, ops, created, root):
             side = "mutate-copy" if rf == src else "mutate-original"
         else:
             side = "mutate-dest" if rf == src else "mutate-source"
-        return "proto:freeze-bypass/%s+%s" % (SHARE[o[0]], side)
+        # every entry point that stores a message given by the program (field, sub-message of another
+        # message, list literal, list copy, append, element assignment) aliases it the same way
+        return "proto:freeze-bypass/%s+%s" % ("copy" if o[0] == "copy" else "assign-msg", side)
     if primary == "cyclic-message":
         # one owner of a list shared by Message(m) stores the other owner into it
         return "proto:cyclic-message/" + ("copy-shares-list" if "copy" in names else ",".join(names))
     if primary == "inexact":
         if last[0] in ("setrfrom", "setrmfrom"):
-            what = "list" if last[0] == "setrfrom" else "msglist"
-            rel = "self" if last[1] == last[2] else "of-copy" if "copy" in names else "other"
-            return "proto:lossy-store/assign-%s-%s" % (what, rel)
+            # m.r = m.r, or m.r = x.r where x shares the list (a copy of m, a view of m)
+            return "proto:lossy-store/assign-repeated-from-own-storage"
         return "proto:lossy-store/" + ",".join(names)
     if primary == "panic":
         return "proto:host-panic/history:" + last[0]
@@ -241,9 +242,11 @@ def hist_part(ctx):
     bysig = collections.OrderedDict()
     for rp in reps:
         sig = signature(rp["primary"], rp["ops"], rp["created"], rp["root"])
-        e = bysig.setdefault(sig, {"count": 0, "rep": rp})
+        e = bysig.setdefault(sig, {"count": 0, "rep": rp, "variants": set()})
         e["count"] += rp["count"]
-        if len(rp["steps"]) < len(e["rep"]["steps"]):
+        e["variants"].add(",".join(o[0] for o in rp["ops"] if o[0] in SHARE or o is rp["ops"][-1]))
+        srcs = lambda x: (len(x["steps"]), [t["src"] for t in x["steps"]])
+        if srcs(rp) < srcs(e["rep"]):
             e["rep"] = rp
     for sig, e in bysig.items():
         rp = e["rep"]
@@ -259,7 +262,8 @@ def hist_part(ctx):
         "noop_stores_accepted_on_frozen": summary["noop_stores_on_frozen"] + ssum["noop_stores_on_frozen"],
         "simulation_traces": n, "simulation_prefixes": ssum["edges"], "simulation_conform": ssum["conform"],
         "simulation_by_length": ssum["by_len"],
-        "divergent_by_signature": {k: v["count"] for k, v in bysig.items()}}
+        "divergent_by_signature": {k: v["count"] for k, v in bysig.items()},
+        "sharing_and_mutating_operations_by_signature": {k: sorted(v["variants"])[:40] for k, v in bysig.items()}}
     ctx.samples += summary["samples"][:4] + ssum["samples"][-2:]
     return summary["edges"] + ssum["edges"], summary["conform"] + ssum["conform"]
 
@@ -432,7 +436,8 @@ def range_signature(c, rec, r):
     if m["kind"] == "string" and m["syn"] == "p3" and vt == "str" and not is_utf8(rec["val"]["v"]) and rec["op"]["ok"] \
             and not (rec["rtb"]["ok"] and rec["rtt"]["ok"]):
         return "proto:ill-typed-store/proto3-string-invalid-utf8"
-    return "proto:range/%s/%s/%s" % (m["kind"], m["pos"], vt)
+    # any other disagreement with ProtoRange!Judge: which value type into which kind, and whether it was stored
+    return "proto:range/%s-into-%s/%s" % (vt, m["kind"], "stored" if rec["op"]["ok"] else "refused")
 
 
 def range_part(ctx, rnd):
